@@ -109,7 +109,7 @@ PROPS = {
         ],
     },
     "C15": {
-        "units": ["keys", "texts"],
+        "units": ["keys", "texts", "chalproof"],
         "design_ref": "DESIGN.md section 5 C15",
         "technique": "Verus function contracts: JWK member maps and signature byte layout against RFC 7518 tables pinned in spec functions",
         "text": "Deductive proof that the RSA and EC JWKs have exactly the RFC 7517/7518 members (thumbprint form: the RFC 7638 member set), "
@@ -123,7 +123,7 @@ PROPS = {
         ],
     },
     "C16": {
-        "units": ["x509", "tacd", "tacdmain"],
+        "units": ["x509", "tacd", "tacdmain", "texts"],
         "design_ref": "DESIGN.md section 5 C16",
         "technique": "Verus function contracts over a ghost view of the OpenSSL certificate builder; the ALPN callback's contract is a precondition of its registration",
         "text": "Deductive proof that the certificate tacd serves is X.509 v3, self-issued and self-signed by the generated key, valid from now for "
@@ -152,7 +152,7 @@ PROPS = {
         ],
     },
     "C19": {
-        "units": ["duration", "ratelimit", "config", "cfgwire"],
+        "units": ["duration", "ratelimit", "config", "cfgwire", "schedule", "storage"],
         "design_ref": "DESIGN.md section 5 C19",
         "technique": "Verus safety obligations (overflow, division, unwrap, termination) + value contracts on the period parser",
         "text": "Deductive proof that the period parser, the limiter constructor and its sleep computation have no failing "
